@@ -1,4 +1,5 @@
 import MaddyVerif.Model.DkimWire
+import MaddyVerif.Model.DkimKeys
 import MaddyVerif.Generated.DkimLists
 import MaddyVerif.Expect.DkimLists
 /-!
@@ -23,6 +24,17 @@ Main results: `C08_readHeader_writeHeader`, `C08_dkimReadHeader_writeHeader`,
 `C08_tamper_detected`, `C08_fieldsToSign_makes_tamper_evident`, `C08_maddy_signature_tamper_detected`; over facts regenerated from the
 current tree: `C08_fieldsToSign_skeleton_as_modelled`, `C08_default_lists_wellformed`,
 `C08_default_config_verifies_at_next_hop`.
+
+Key store (`Model/DkimKeys.lean`, "… against the PUBLISHED key"): for every `key_path` template,
+selector, list of domains (any spelling), directory contents and `newkey_algo`s —
+`C08_restart_finds_the_same_keys`, `C08_any_number_of_restarts` (an instance started again on the
+directory an earlier start left creates no file and holds the same key pairs),
+`C08_generated_key_has_its_record`, `C08_signer_after_restarts_matches_first_record`,
+`C08_signed_after_restarts_verifies_against_published_key` (the headline theorem with the key taken
+from the restarted instance and the record written at the first start),
+`C08_default_key_path_uses_names_as_written`.  Side conditions `NoClash` / `RecInj` (no record file
+of the configuration lands on a key path of the configuration; two key paths never share a record
+file) hold for every template whose key paths end in `.key` (`noClash_recInj_of_dotKey`).
 -/
 namespace MaddyVerif.C08
 open MaddyVerif.DkimWire
@@ -1483,5 +1495,447 @@ theorem C08_maddy_signature_tamper_detected {D S} [DecidableEq D] (C : Crypto D 
     · exact verify_fails_of_digest_ne C hinj hsound hc bc ks _ h₀ sig tmpl body bs
         (by rw [← hgood, ← hab]; exact h2 g' hn hd)
 
+
+section KeyStore
+open MaddyVerif.DkimKeys
+
+/-! ## the key store: a restart finds the keys that were published -/
+
+theorem lookup_unique {κ β} [BEq κ] [LawfulBEq κ] (l : List (κ × β)) (k : κ) (v : β)
+    (hm : (k, v) ∈ l) (hu : ∀ e ∈ l, e.1 = k → e.2 = v) : l.lookup k = some v := by
+  induction l with
+  | nil => simp at hm
+  | cons e es ih =>
+    obtain ⟨k', v'⟩ := e
+    by_cases hk : k = k'
+    · subst hk
+      have := hu (k, v') (by simp) rfl
+      simp at this
+      simp [this]
+    · have hm' : (k, v) ∈ es := by
+        simp at hm
+        rcases hm with ⟨h, _⟩ | h
+        · exact absurd h hk
+        · exact h
+      have : (k == k') = false := by simpa using hk
+      rw [List.lookup_cons, this]
+      exact ih hm' (fun e he => hu e (by simp [he]))
+
+theorem dnsPath_ne_self (p : Bytes) : dnsPath p ≠ p := by
+  unfold dnsPath
+  split
+  · rename_i h
+    rw [List.isSuffixOf_iff_suffix] at h
+    obtain ⟨t, rfl⟩ := h
+    simp [dotKey, dotDns]
+  · intro h
+    have := congrArg List.length h
+    simp [dotDns] at this
+
+theorem loadOrGenerate_keeps_key {fs : FS} {n : Nat} {p : Bytes} {a : Algo} {l : Loaded}
+    {q : Bytes} {f : File}
+    (h : loadOrGenerate fs n p a = .ok l) (hq : fs.lookup q = some f) (hne : dnsPath p ≠ q) :
+    l.fs.lookup q = some f := by
+  unfold loadOrGenerate at h
+  split at h
+  · injection h with h; subst h; exact hq
+  · cases h
+  · rename_i hnone
+    injection h with h; subst h
+    have h1 : (q == p) = false := by
+      apply beq_false_of_ne
+      intro e; subst e; rw [hnone] at hq; cases hq
+    have h2 : (q == dnsPath p) = false := beq_false_of_ne (fun e => hne e.symm)
+    simp [List.lookup_cons, h1, h2, hq]
+
+theorem loadOrGenerate_key_present {fs : FS} {n : Nat} {p : Bytes} {a : Algo} {l : Loaded}
+    (h : loadOrGenerate fs n p a = .ok l) : l.fs.lookup p = some (.key l.id l.algo) := by
+  unfold loadOrGenerate at h
+  split at h
+  · rename_i hk
+    injection h with h; subst h; exact hk
+  · cases h
+  · injection h with h; subst h
+    simp [List.lookup_cons]
+
+theorem initLoop_keeps (tmpl sel : Bytes) (a : Algo) (q : Bytes) (f : File) :
+    ∀ (ds : List (Bytes × Bytes)) (fs : FS) (n : Nat) (sg : Signers),
+      fs.lookup q = some f → (∀ d ∈ ds, dnsPath (expand d.1 sel tmpl) ≠ q) →
+      (initLoop tmpl sel a ds fs n sg).fs.lookup q = some f := by
+  intro ds
+  induction ds with
+  | nil => intro fs n sg hq _; simpa [initLoop] using hq
+  | cons d ds ih =>
+    intro fs n sg hq hne
+    unfold initLoop
+    split
+    · exact hq
+    · rename_i l hl
+      exact ih _ _ _ (loadOrGenerate_keeps_key hl hq (hne d (by simp)))
+        (fun d' hd' => hne d' (by simp [hd']))
+
+/-- no record file of the configuration is written where the configuration expects a key -/
+def NoClash (ps : List Bytes) : Prop := ∀ p ∈ ps, ∀ q ∈ ps, dnsPath p ≠ q
+
+theorem initLoop_all_present (tmpl sel : Bytes) (a : Algo) :
+    ∀ (ds : List (Bytes × Bytes)) (fs : FS) (n : Nat) (sg : Signers),
+      (∀ d ∈ ds, ∃ id a', fs.lookup (expand d.1 sel tmpl) = some (.key id a')) →
+      initLoop tmpl sel a ds fs n sg = ⟨fs, n, (ds.map (entryOf tmpl sel fs)).reverse ++ sg, none⟩ := by
+  intro ds
+  induction ds with
+  | nil => intro fs n sg _; simp [initLoop]
+  | cons d ds ih =>
+    intro fs n sg h
+    obtain ⟨id, a', hk⟩ := h d (by simp)
+    unfold initLoop
+    simp only [loadOrGenerate, hk]
+    rw [ih fs n _ (fun d' hd' => h d' (by simp [hd']))]
+    simp [entryOf, hk]
+
+theorem initLoop_first (tmpl sel : Bytes) (a : Algo) :
+    ∀ (ds : List (Bytes × Bytes)) (fs : FS) (n : Nat) (sg : Signers),
+      NoClash (ds.map (fun d => expand d.1 sel tmpl)) →
+      (initLoop tmpl sel a ds fs n sg).err = none →
+      (∀ d ∈ ds, ∃ id a', (initLoop tmpl sel a ds fs n sg).fs.lookup (expand d.1 sel tmpl) = some (.key id a')) ∧
+      (initLoop tmpl sel a ds fs n sg).signers =
+        (ds.map (entryOf tmpl sel (initLoop tmpl sel a ds fs n sg).fs)).reverse ++ sg := by
+  intro ds
+  induction ds with
+  | nil => intro fs n sg _ _; simp [initLoop]
+  | cons d ds ih =>
+    intro fs n sg hnc hok
+    unfold initLoop at hok ⊢
+    split at hok
+    · simp at hok
+    · rename_i l hl
+      have hnc' : NoClash (ds.map (fun d => expand d.1 sel tmpl)) :=
+        fun p hp q hq => hnc p (by simp at hp ⊢; exact Or.inr hp) q (by simp at hq ⊢; exact Or.inr hq)
+      obtain ⟨ih1, ih2⟩ := ih l.fs l.next ((d.2, l.id, l.algo) :: sg) hnc' hok
+      have hkeep : (initLoop tmpl sel a ds l.fs l.next ((d.2, l.id, l.algo) :: sg)).fs.lookup
+          (expand d.1 sel tmpl) = some (.key l.id l.algo) := by
+        apply initLoop_keeps
+        · exact loadOrGenerate_key_present hl
+        · intro d' hd'
+          exact hnc _ (List.mem_cons_of_mem _ (List.mem_map.mpr ⟨d', hd', rfl⟩)) _ (by simp)
+      refine ⟨?_, ?_⟩
+      · intro d' hd'
+        simp at hd'
+        rcases hd' with rfl | hd'
+        · exact ⟨_, _, hkeep⟩
+        · exact ih1 d' hd'
+      · rw [ih2]
+        simp [entryOf, hkeep]
+
+
+/-- **C08 (key store).** A modifier started again on the directory an earlier start left behind —
+same domains, selector and `key_path`, ANY `newkey_algo` — creates no file and signs with exactly
+the key pairs of the earlier start. -/
+theorem C08_restart_finds_the_same_keys (c : Cfg) (fs : FS) (n : Nat)
+    (hnc : NoClash (keyPaths c)) (hok : (init c fs n).err = none) (a' : Algo) :
+    init { c with algo := a' } (init c fs n).fs (init c fs n).next =
+      ⟨(init c fs n).fs, (init c fs n).next, (init c fs n).signers, none⟩ := by
+  obtain ⟨h1, h2⟩ := initLoop_first c.tmpl c.sel c.algo c.domains fs n [] hnc hok
+  unfold init at *
+  rw [initLoop_all_present c.tmpl c.sel a' c.domains _ _ [] h1, h2]
+
+/-- … and so after any number of restarts. -/
+theorem C08_any_number_of_restarts (c : Cfg) (fs : FS) (n : Nat)
+    (hnc : NoClash (keyPaths c)) (hok : (init c fs n).err = none) (as : List Algo) :
+    restarts c as (init c fs n) = ⟨(init c fs n).fs, (init c fs n).next, (init c fs n).signers, none⟩ := by
+  have hr := C08_restart_finds_the_same_keys c fs n hnc hok
+  generalize init c fs n = r at hr hok
+  have key : ∀ (as : List Algo) (r' : InitRes), r' = ⟨r.fs, r.next, r.signers, none⟩ →
+      restarts c as r' = ⟨r.fs, r.next, r.signers, none⟩ := by
+    intro as
+    induction as with
+    | nil => intro r' h; simpa [restarts] using h
+    | cons a as ih =>
+      intro r' h
+      subst h
+      simp only [restarts]
+      exact ih _ (hr a)
+  apply key
+  cases r
+  simp at hok
+  simp [hok]
+
+/-- a key file and the record file written with it -/
+def Pair (fs : FS) (p : Bytes) : Prop :=
+  ∃ id a, fs.lookup p = some (.key id a) ∧ fs.lookup (dnsPath p) = some (.txt id a)
+
+theorem loadOrGenerate_keeps_pair {fs : FS} {n : Nat} {p : Bytes} {a : Algo} {l : Loaded} {P : Bytes}
+    (h : loadOrGenerate fs n p a = .ok l) (hP : Pair fs P)
+    (h1 : dnsPath p ≠ P) (h2 : dnsPath p = dnsPath P → p = P) : Pair l.fs P := by
+  obtain ⟨id, a', hk, hr⟩ := hP
+  refine ⟨id, a', loadOrGenerate_keeps_key h hk h1, ?_⟩
+  unfold loadOrGenerate at h
+  split at h
+  · injection h with h; subst h; exact hr
+  · cases h
+  · rename_i hnone
+    injection h with h; subst h
+    have e1 : (dnsPath P == p) = false := by
+      apply beq_false_of_ne
+      intro e; rw [← e, hr] at hnone; cases hnone
+    have e2 : (dnsPath P == dnsPath p) = false := by
+      apply beq_false_of_ne
+      intro e
+      have := h2 e.symm
+      subst this
+      rw [hk] at hnone; cases hnone
+    simp [List.lookup_cons, e1, e2, hr]
+
+theorem loadOrGenerate_new_pair {fs : FS} {n : Nat} {p : Bytes} {a : Algo} {l : Loaded}
+    (h : loadOrGenerate fs n p a = .ok l) (hnone : fs.lookup p = none) : Pair l.fs p := by
+  unfold loadOrGenerate at h
+  rw [hnone] at h
+  injection h with h; subst h
+  have : (dnsPath p == p) = false := beq_false_of_ne (dnsPath_ne_self p)
+  exact ⟨n, a, by simp [List.lookup_cons], by simp [List.lookup_cons, this]⟩
+
+/-- two key paths of the configuration never share a record file -/
+def RecInj (ps : List Bytes) : Prop := ∀ p ∈ ps, ∀ q ∈ ps, dnsPath p = dnsPath q → p = q
+
+theorem initLoop_pairs (tmpl sel : Bytes) (a : Algo) :
+    ∀ (ds : List (Bytes × Bytes)) (fs : FS) (n : Nat) (sg : Signers) (P : Bytes),
+      (∀ d ∈ ds, dnsPath (expand d.1 sel tmpl) ≠ P) →
+      (∀ d ∈ ds, dnsPath (expand d.1 sel tmpl) = dnsPath P → expand d.1 sel tmpl = P) →
+      Pair fs P → Pair (initLoop tmpl sel a ds fs n sg).fs P := by
+  intro ds
+  induction ds with
+  | nil => intro fs n sg P _ _ h; simpa [initLoop] using h
+  | cons d ds ih =>
+    intro fs n sg P h1 h2 hP
+    unfold initLoop
+    split
+    · exact hP
+    · rename_i l hl
+      exact ih _ _ _ P (fun d' hd' => h1 d' (by simp [hd'])) (fun d' hd' => h2 d' (by simp [hd']))
+        (loadOrGenerate_keeps_pair hl hP (h1 d (by simp)) (h2 d (by simp)))
+
+theorem initLoop_generated_pairs (tmpl sel : Bytes) (a : Algo) :
+    ∀ (ds : List (Bytes × Bytes)) (fs : FS) (n : Nat) (sg : Signers),
+      NoClash (ds.map (fun d => expand d.1 sel tmpl)) →
+      RecInj (ds.map (fun d => expand d.1 sel tmpl)) →
+      (initLoop tmpl sel a ds fs n sg).err = none →
+      ∀ d ∈ ds, (fs.lookup (expand d.1 sel tmpl) = none ∨ Pair fs (expand d.1 sel tmpl)) →
+        Pair (initLoop tmpl sel a ds fs n sg).fs (expand d.1 sel tmpl) := by
+  intro ds
+  induction ds with
+  | nil => intro fs n sg _ _ _ d hd; simp at hd
+  | cons d₀ ds ih =>
+    intro fs n sg hnc hinj hok d hd hcond
+    have hmem : ∀ d' ∈ ds, expand d'.1 sel tmpl ∈ (d₀ :: ds).map (fun d => expand d.1 sel tmpl) :=
+      fun d' hd' => List.mem_cons_of_mem _ (List.mem_map.mpr ⟨d', hd', rfl⟩)
+    have hmem₀ : expand d₀.1 sel tmpl ∈ (d₀ :: ds).map (fun d => expand d.1 sel tmpl) := by simp
+    have hnc' : NoClash (ds.map (fun d => expand d.1 sel tmpl)) :=
+      fun p hp q hq => hnc p (List.mem_cons_of_mem _ hp) q (List.mem_cons_of_mem _ hq)
+    have hinj' : RecInj (ds.map (fun d => expand d.1 sel tmpl)) :=
+      fun p hp q hq => hinj p (List.mem_cons_of_mem _ hp) q (List.mem_cons_of_mem _ hq)
+    unfold initLoop at hok ⊢
+    split at hok
+    · simp at hok
+    · rename_i l hl
+      -- after the step for d₀, the condition still holds for every domain of the tail, and d₀ has its pair
+      have hstep : ∀ d' ∈ d₀ :: ds,
+          (fs.lookup (expand d'.1 sel tmpl) = none ∨ Pair fs (expand d'.1 sel tmpl)) →
+          (d' ∈ ds → (l.fs.lookup (expand d'.1 sel tmpl) = none ∨ Pair l.fs (expand d'.1 sel tmpl))) ∧
+          (expand d'.1 sel tmpl = expand d₀.1 sel tmpl → Pair l.fs (expand d₀.1 sel tmpl)) := by
+        intro d' hd' hc
+        have hm' : expand d'.1 sel tmpl ∈ (d₀ :: ds).map (fun d => expand d.1 sel tmpl) :=
+          List.mem_map.mpr ⟨d', hd', rfl⟩
+        rcases hc with hnone | hpair
+        · refine ⟨fun _ => ?_, fun e => ?_⟩
+          · by_cases e : expand d'.1 sel tmpl = expand d₀.1 sel tmpl
+            · right; rw [e]; rw [e] at hnone; exact loadOrGenerate_new_pair hl hnone
+            · left
+              unfold loadOrGenerate at hl
+              split at hl
+              · injection hl with hl; subst hl; exact hnone
+              · cases hl
+              · injection hl with hl; subst hl
+                have e1 : (expand d'.1 sel tmpl == expand d₀.1 sel tmpl) = false := beq_false_of_ne e
+                have e2 : (expand d'.1 sel tmpl == dnsPath (expand d₀.1 sel tmpl)) = false :=
+                  beq_false_of_ne (fun h => hnc _ hmem₀ _ hm' h.symm)
+                simp [List.lookup_cons, e1, e2, hnone]
+          · rw [e] at hnone; exact loadOrGenerate_new_pair hl hnone
+        · have hp' : Pair l.fs (expand d'.1 sel tmpl) :=
+            loadOrGenerate_keeps_pair hl hpair (hnc _ hmem₀ _ hm') (hinj _ hmem₀ _ hm')
+          exact ⟨fun _ => Or.inr hp', fun e => e ▸ hp'⟩
+      simp at hd
+      rcases hd with rfl | hd
+      · apply initLoop_pairs
+        · intro d' hd'; exact hnc _ (hmem d' hd') _ hmem₀
+        · intro d' hd'; exact hinj _ (hmem d' hd') _ hmem₀
+        · exact (hstep d (by simp) hcond).2 rfl
+      · exact ih l.fs l.next _ hnc' hinj' hok d hd ((hstep d (by simp [hd]) hcond).1 hd)
+
+/-- **C08 (key store).** Every key the first start generated has its record file ("the published
+key") in the directory the start leaves behind — and hence, by `C08_any_number_of_restarts`,
+after every later restart. -/
+theorem C08_generated_key_has_its_record (c : Cfg) (fs : FS) (n : Nat)
+    (hnc : NoClash (keyPaths c)) (hinj : RecInj (keyPaths c)) (hok : (init c fs n).err = none)
+    (d : Bytes × Bytes) (hd : d ∈ c.domains) (hnew : fs.lookup (expand d.1 c.sel c.tmpl) = none) :
+    Pair (init c fs n).fs (expand d.1 c.sel c.tmpl) :=
+  initLoop_generated_pairs c.tmpl c.sel c.algo c.domains fs n [] hnc hinj hok d hd (Or.inl hnew)
+
+/-- **C08 (key store).** After any number of restarts (each with any `newkey_algo`) the key that
+signs for a domain is the one whose record was written when the key was first generated: the
+record in the directory ("published") and the signer of the restarted instance carry the same
+key pair and the same key type. -/
+theorem C08_signer_after_restarts_matches_first_record (c : Cfg) (fs : FS) (n : Nat)
+    (hnc : NoClash (keyPaths c)) (hinj : RecInj (keyPaths c)) (hok : (init c fs n).err = none)
+    (d : Bytes × Bytes) (hd : d ∈ c.domains) (hnew : fs.lookup (expand d.1 c.sel c.tmpl) = none)
+    (huniq : ∀ d' ∈ c.domains, d'.2 = d.2 → expand d'.1 c.sel c.tmpl = expand d.1 c.sel c.tmpl)
+    (as : List Algo) :
+    ∃ id a, (init c fs n).fs.lookup (dnsPath (expand d.1 c.sel c.tmpl)) = some (.txt id a) ∧
+      (restarts c as (init c fs n)).fs = (init c fs n).fs ∧
+      (restarts c as (init c fs n)).signers.lookup d.2 = some (id, a) := by
+  obtain ⟨id, a, hk, hr⟩ := C08_generated_key_has_its_record c fs n hnc hinj hok d hd hnew
+  refine ⟨id, a, hr, ?_, ?_⟩
+  · rw [C08_any_number_of_restarts c fs n hnc hok as]
+  · rw [C08_any_number_of_restarts c fs n hnc hok as]
+    obtain ⟨_, h2⟩ := initLoop_first c.tmpl c.sel c.algo c.domains fs n [] hnc hok
+    show (init c fs n).signers.lookup d.2 = some (id, a)
+    unfold init at hk ⊢
+    rw [h2]
+    apply lookup_unique
+    · simp
+      exact ⟨d.1, d.2, hd, by simp [entryOf, hk]⟩
+    · intro e he hk'
+      simp at he
+      obtain ⟨x, y, hxy, rfl⟩ := he
+      have hy : y = d.2 := by simpa [entryOf] using (by
+        revert hk'; unfold entryOf; split <;> simp)
+      have hp := huniq (x, y) hxy hy
+      simp at hp
+      simp [entryOf, hp, hk]
+
+
+theorem dnsPath_dotKey (t : Bytes) : dnsPath (t ++ dotKey) = t ++ dotDns := by
+  have : dotKey.isSuffixOf (t ++ dotKey) = true := by
+    rw [List.isSuffixOf_iff_suffix]; exact ⟨t, rfl⟩
+  simp [dnsPath, this, dotKey]
+
+/-- key paths ending in `.key` (the default template, and the usual custom ones) satisfy both
+side conditions: record files end in `.dns` -/
+theorem noClash_recInj_of_dotKey (ps : List Bytes) (h : ∀ p ∈ ps, dotKey <:+ p) :
+    NoClash ps ∧ RecInj ps := by
+  have hd : ∀ p ∈ ps, ∃ t, p = t ++ dotKey ∧ dnsPath p = t ++ dotDns := by
+    intro p hp
+    obtain ⟨t, rfl⟩ := h p hp
+    exact ⟨t, rfl, dnsPath_dotKey t⟩
+  constructor
+  · intro p hp q hq e
+    obtain ⟨t, _, ht⟩ := hd p hp
+    obtain ⟨u, hu, _⟩ := hd q hq
+    rw [ht, hu] at e
+    have := List.append_inj' e (by simp [dotKey, dotDns])
+    simp [dotKey, dotDns] at this
+  · intro p hp q hq e
+    obtain ⟨t, hpt, ht⟩ := hd p hp
+    obtain ⟨u, hqu, hu⟩ := hd q hq
+    rw [ht, hu] at e
+    have := (List.append_inj' e rfl).1
+    rw [hpt, hqu, this]
+
+/-- `{domain}_{selector}.key`, the default of `key_path` -/
+def defaultKeyTemplate : Bytes := phDomain ++ [95] ++ phSelector ++ dotKey
+
+/-- **C08 (key store).** With the default `key_path` the key of a domain is looked for under the
+domain and the selector AS WRITTEN in the configuration (U-labels stay U-labels, A-labels stay
+A-labels, no case folding), for every domain and selector. -/
+theorem C08_default_key_path_uses_names_as_written (d s : Bytes) :
+    expand d s defaultKeyTemplate = d ++ [95] ++ s ++ dotKey ∧
+    dnsPath (expand d s defaultKeyTemplate) = d ++ [95] ++ s ++ dotDns := by
+  have h1 : expand d s defaultKeyTemplate = d ++ [95] ++ s ++ dotKey := by
+    simp [expand, expandGo, defaultKeyTemplate, phDomain, phSelector, dotKey, List.isPrefixOf]
+  refine ⟨h1, ?_⟩
+  rw [h1]
+  exact dnsPath_dotKey (d ++ [95] ++ s)
+
+/-- a signature scheme with named key pairs: `sign k` uses the private key of pair `k`,
+`vrfy k` the public key of pair `k` (what the record file of pair `k` publishes) -/
+structure KeyedScheme (D S : Type) where
+  hash : Bytes → D
+  sign : Nat → D → S
+  vrfy : Nat → D → S → Bool
+
+/-- signing with the private key of pair `i`, verifying with the record of pair `j` -/
+def KeyedScheme.crypto {D S} (K : KeyedScheme D S) (i j : Nat) : Crypto D S :=
+  ⟨K.hash, K.sign i, K.vrfy j⟩
+
+/-- **C08, with the key store.** The first start generates the key of a domain and writes its
+record (which the administrator publishes).  After ANY number of restarts on that directory
+(whatever `newkey_algo` says by then) a message signed with the key the running instance holds for
+the domain verifies, at the next hop, against the record written at the first start — for every
+correct signature scheme, both canonicalisations, every `h=` list, RFC header and line body, both
+spool paths. -/
+theorem C08_signed_after_restarts_verifies_against_published_key {D S} [DecidableEq D]
+    (K : KeyedScheme D S) (hcorrect : ∀ k d, K.vrfy k d (K.sign k d) = true)
+    (c : Cfg) (fs : FS) (n : Nat)
+    (hnc : NoClash (keyPaths c)) (hinj : RecInj (keyPaths c)) (hok : (init c fs n).err = none)
+    (d : Bytes × Bytes) (hd : d ∈ c.domains) (hnew : fs.lookup (expand d.1 c.sel c.tmpl) = none)
+    (huniq : ∀ d' ∈ c.domains, d'.2 = d.2 → expand d'.1 c.sel c.tmpl = expand d.1 c.sel c.tmpl)
+    (as : List Algo)
+    (viaDisk : Bool) (hc bc : Canon) (ks : List Bytes) (h₀ : List Bytes) (bl : List Bytes)
+    (tmpl sig : Bytes)
+    (hwf : ∀ f ∈ h₀, RFCField f) (hsig : RFCField sig) (hbl : ∀ l ∈ bl, CleanLine l)
+    (hnot : ∀ k ∈ ks, maKey sig ≠ lowerA k)
+    (hb : trimRightCRLF (canonHeader hc (removeSig sig)) = trimRightCRLF (canonHeader hc tmpl)) :
+    ∃ pub a signer,
+      -- the record written when the key was generated, still there after the restarts
+      (restarts c as (init c fs n)).fs.lookup (dnsPath (expand d.1 c.sel c.tmpl)) = some (.txt pub a) ∧
+      -- the key the restarted instance signs with for this domain: same type, …
+      (restarts c as (init c fs n)).signers.lookup d.2 = some (signer, a) ∧
+      -- … and what it signs verifies against the published record at the next hop
+      ∃ p hdr body' hs bs,
+        maReadHeader (writeHeader h₀ ++ linesBytes bl) = some (hs, bs) ∧
+        nextHop viaDisk (sig :: h₀) (linesBytes bl) = some p ∧
+        maReadHeader p = some (hdr, body') ∧
+        verifyMsg (K.crypto signer pub) hc bc ks hdr sig body'
+          (signMsg (K.crypto signer pub) hc bc ks hs tmpl bs) = true := by
+  obtain ⟨id, a, hr, hfs, hs⟩ :=
+    C08_signer_after_restarts_matches_first_record c fs n hnc hinj hok d hd hnew huniq as
+  refine ⟨id, a, id, by rw [hfs]; exact hr, hs, ?_⟩
+  exact C08_signed_message_verifies_at_next_hop (K.crypto id id) (fun x => hcorrect id x)
+    viaDisk hc bc ks h₀ bl tmpl sig hwf hsig hbl hnot hb
+
+/-! ### non-vacuity: an IDN domain in U-labels and an ASCII one, default template -/
+
+/-- `bücher.example` (UTF-8), normal form the same; `EXAMPLE.org`, normal form `example.org` -/
+def exCfg : Cfg :=
+  { tmpl := defaultKeyTemplate, sel := [115, 49], algo := .ed25519,
+    domains := [([98, 195, 188, 99, 104, 101, 114, 46, 101, 120], [98, 195, 188, 99, 104, 101, 114, 46, 101, 120]),
+                ([69, 88, 46, 111, 114, 103], [101, 120, 46, 111, 114, 103])] }
+
+example : NoClash (keyPaths exCfg) ∧ RecInj (keyPaths exCfg) :=
+  noClash_recInj_of_dotKey _ (by decide)
+
+example : (init exCfg [] 0).err = none ∧ (init exCfg [] 0).next = 2 ∧
+    (init exCfg [] 0).fs.length = 4 ∧
+    -- the key of the IDN domain is under its U-label name
+    (init exCfg [] 0).fs.lookup ([98, 195, 188, 99, 104, 101, 114, 46, 101, 120] ++ [95, 115, 49] ++ dotKey)
+      = some (.key 0 .ed25519) ∧
+    -- a restart with newkey_algo rsa2048 creates nothing and keeps the Ed25519 keys
+    (init { exCfg with algo := .rsa } (init exCfg [] 0).fs 2).fs.length = 4 ∧
+    (init { exCfg with algo := .rsa } (init exCfg [] 0).fs 2).signers = (init exCfg [] 0).signers ∧
+    (∀ d ∈ exCfg.domains, ([] : FS).lookup (expand d.1 exCfg.sel exCfg.tmpl) = none) ∧
+    (∀ d ∈ exCfg.domains, ∀ d' ∈ exCfg.domains, d'.2 = d.2 →
+      expand d'.1 exCfg.sel exCfg.tmpl = expand d.1 exCfg.sel exCfg.tmpl) := by decide
+
+/-- what the seeded change C08-5 does (`{domain}` expanded to the A-label form): the restarted
+instance does not find the published key and generates a second one — here the directory was
+left by the documented expansion and is read with a DIFFERENT name for the same domain -/
+example :
+    let fs₁ := (init exCfg [] 0).fs
+    let aLabel : Cfg := { exCfg with domains :=
+      [([120, 110, 45, 45, 98, 99, 104, 101, 114, 45, 107, 118, 97, 46, 101, 120], [98, 195, 188, 99, 104, 101, 114, 46, 101, 120])] }
+    (init aLabel fs₁ 2).fs.length = 6 ∧
+    (init aLabel fs₁ 2).signers.lookup [98, 195, 188, 99, 104, 101, 114, 46, 101, 120] = some (2, .ed25519) ∧
+    (init exCfg [] 0).signers.lookup [98, 195, 188, 99, 104, 101, 114, 46, 101, 120] = some (0, .ed25519) := by decide
+
+
+end KeyStore
 
 end MaddyVerif.C08
